@@ -229,6 +229,12 @@ def floors(tier):
         f["domain_kind_in_twin_spaces:" + dk] = 15 * k
         f["domain_kind_in_child_spaces:" + dk] = 2 if tier == "quick" else 20
     f["B:cases_with_quantized_domain"] = 8 if tier == "quick" else 80
+    f["A:plain_rush_twins_without_rung_system_kwargs:hb_rush_stopping"] = 10 * k
+    f["A:plain_rush_twins_without_rung_system_kwargs:hb_rush_promotion"] = 10 * k
+    f["A:option_decoy_between_twin_constructions"] = 200 * k
+    f["A:option_decoy_between_plain_rush_twins"] = 12 * k
+    for lb, m in (("rush_with_explicit_rung_system_kwargs", 150), ("RUSHScheduler", 100), ("all_options_nondefault", 400)):
+        f["A:option_decoys:" + lb] = m * k
     kb = 1 if tier == "quick" else 5
     for kind in HASH_KINDS:
         f["fresh_process_hash_twins:" + kind] = 6 * kb
@@ -549,6 +555,10 @@ def expand_a(spec):
         p["use_mra"] = rng.random() < 0.5
         if typ.startswith("rush"):
             p["rush_candidates"] = rng.choice([0, 1, 2, 3])
+            # half of the RUSH-type twins are built WITHOUT rung_system_kwargs (documented default: 0 threshold
+            # candidates) but with points_to_evaluate, which would become threshold candidates if the default leaked
+            p["rush_explicit_kwargs"] = rng.random() < 0.5
+            p["rush_points"] = rng.randint(1, 3)
         if typ == "cost_promotion":
             p["curves"] = rng.choice(["continuous", "crossing"])
     elif kind in ("sync_hb", "dehb"):
@@ -619,6 +629,10 @@ def make_args(p):
     else:
         pts = _sample_configs(p["space"], npts, p["points_seed"]) if npts else None
     so = {"debug_log": False}
+    if p.get("nondefault_options") and not kind.startswith("hb_"):
+        so["allow_duplicates"] = True
+        if pts is None and kind not in ("sync_hb", "dehb"):
+            pts = _sample_configs(p["space"], 2, p["points_seed"] + 7)
     if kind in ("fifo_random", "searcher_random"):
         if p["variant"] == "restrict":
             so["restrict_configurations"] = _sample_configs(p["space"], 40, p["points_seed"] + 1)
@@ -635,6 +649,11 @@ def make_args(p):
         if p["use_mra"]:
             space["epochs"] = p["max_t"]
         nc = p.get("rush_candidates", 0) if kind[3:].startswith("rush") else 0
+        if kind[3:].startswith("rush") and not p.get("rush_explicit_kwargs", True):
+            nc = p.get("rush_points", 2)
+        if p.get("nondefault_options"):
+            nc = max(nc, 2)
+            so["allow_duplicates"] = True
         if nc > 0:
             pts = _sample_configs(p["space"], nc, p["points_seed"])
         if p.get("variant") == "restrict":
@@ -822,11 +841,15 @@ def _build_scheduler(p, seed, args=None):
             bp["max_resource_attr"] = "epochs"
         if typ == "cost_promotion":
             kw["cost_attr"] = "cost"
-        if typ.startswith("rush"):
+        if p.get("nondefault_options"):  # option decoy: every dict-valued / optional argument set explicitly
+            kw["rung_system_kwargs"] = {"num_threshold_candidates": 2}
+            kw["early_checkpoint_removal_kwargs"] = {"max_num_checkpoints": 5} if typ in ("promotion", "rush_promotion") else None
+            kw["register_pending_myopic"] = True
+        elif typ.startswith("rush") and p.get("rush_explicit_kwargs", True):
             kw["rung_system_kwargs"] = {"num_threshold_candidates": p.get("rush_candidates", 0)}
         if pts is not None:
             kw["points_to_evaluate"] = pts
-        return gen.build_hyperband(space, bp, seed=seed, **kw)
+        return gen.build_hyperband(space, bp, seed=seed, **{k: v for k, v in kw.items() if v is not None})
     if kind in ("sync_hb", "dehb"):
         from stv.props import c05
 
@@ -997,12 +1020,40 @@ class Perturber:
             if not alive:
                 self.decoys.pop(i)
 
-    def build_decoy(self, nb=None):
+    def option_decoy_params(self, rng=None):
+        """A scheduler of the same family built with its dict-valued / optional arguments set to NON-default values
+        (search_options, points_to_evaluate, rung_system_kwargs, early_checkpoint_removal_kwargs ...); for the Hyperband
+        family also a RUSH-type scheduler with explicit threshold candidates and a RUSHScheduler (which always passes
+        num_threshold_candidates)."""
+        rng, p = rng or self.rng, self.p
+        q = copy.deepcopy(p)
+        q["sched_seed"] = rng.randrange(SEED_MAX)
+        if p["kind"].startswith("hb_"):
+            r = rng.random()
+            if r < 0.4:
+                q.update(kind=rng.choice(["hb_rush_stopping", "hb_rush_promotion"]), rush_explicit_kwargs=True,
+                         rush_candidates=rng.randint(1, 3))
+                q.setdefault("rush_points", 2)
+                return "rush_with_explicit_rung_system_kwargs", q
+            if r < 0.7:
+                return "RUSHScheduler", expand_tl({"kind": rng.choice(["tl_rush_stopping", "tl_rush_promotion"]),
+                                                   "seed": rng.randrange(2 ** 30)})
+            q.update(kind=rng.choice(["hb_rush_stopping", "hb_promotion", "hb_rush_promotion"]), nondefault_options=True)
+            q.setdefault("rush_candidates", 0)
+            return "all_options_nondefault", q
+        q["nondefault_options"] = True
+        return "all_options_nondefault", q
+
+    def build_decoy(self, nb=None, option=False, option_rng=None):
         rng, p = self.rng, self.p
         self.n_built += 1
         label = None
         if nb is None and self.neighbours:
             nb = rng.choice(self.neighbours)
+        if nb is None and (option or rng.random() < 0.3):
+            olabel, q = self.option_decoy_params(option_rng)
+            nb = (None, q)
+            self._count(self.cprefix + "option_decoys:" + olabel)
         if nb is not None:
             label, p = nb
             seed = p["sched_seed"]
@@ -1154,9 +1205,17 @@ def run_twins(p, o, classes=("np", "py", "decoy"), same_np=False, same_py=False,
     pert = Perturber(p, p["vt_seed"] + 5, classes, same_np, same_py, oo)
     twins, tks, errs = [], [], []
     pert.new_pair()
+    brng = random.Random(p["vt_seed"] + 91)  # same choice in the attribution re-runs
+    between = "decoy" in pert.classes and brng.random() < 0.6
     for i in range(2):
         tk = new_time_keeper() if _needs_time_keeper(p) else None
         pert.gap()
+        if i == 1 and between:
+            # a scheduler with explicit non-default options is constructed BETWEEN the constructions of the twins
+            if pert.build_decoy(option=True, option_rng=brng) is not None:
+                oo.count("A:option_decoy_between_twin_constructions")
+                if p["kind"].startswith("hb_rush") and not p.get("rush_explicit_kwargs", True):
+                    oo.count("A:option_decoy_between_plain_rush_twins")
         try:
             twins.append(build_scheduler(p, p["sched_seed"], tk))
             errs.append(None)
@@ -1213,6 +1272,8 @@ def run_engine_a(spec, o):
     n = vt.n_events
     if div is None and n >= 30:
         o.count("A:hist30:" + kind)
+        if kind.startswith("hb_rush") and not p.get("rush_explicit_kwargs", True):
+            o.count("A:plain_rush_twins_without_rung_system_kwargs:" + kind)
         if p["sched_seed"] == 0:
             o.count("twins_with_random_seed_0:" + kind)
         elif p["sched_seed"] in (1, 2, 3, 7, SEED_MAX, SEED_MAX - 1):
@@ -1744,6 +1805,8 @@ def neighbour_params(p, rng, first=None):
                 var("max_t", max_t=int(mt // rf))
             var("rung_levels", reduction_factor={2: 3, 3: 2, 4: 3, 2.5: 3}.get(rf, 2))
             var("rung_levels", grace_period=p["grace_period"] + 1)
+        var("rung_system_kwargs", kind="hb_rush_promotion" if "promotion" in kind or kind == "hb_pasha" else "hb_rush_stopping",
+            rush_explicit_kwargs=True, rush_candidates=2, rush_points=2)
         if kind != "hb_pasha":
             var("brackets", brackets=p["brackets"] + 1)
             if p["brackets"] > 1:
